@@ -20,7 +20,7 @@ import smoothmath as sm
 import smoothmath.expression as smx
 from smoothmath import Partial, Derivative, Differential, LocatedDifferential
 
-QUERY_VARS = ("x", "y", "z", "w")
+QUERY_VARS = ("x", "y", "z", "w", "q")
 WIDTH_LIMIT = mpf(2) ** -40
 
 
@@ -340,13 +340,27 @@ def _interleaved_gradient(t, st: Stats):
     e = A.build(t)
     v = vs[0]
     P = Partial(e, v)
+    kept = None          # (LocatedDifferential built at an earlier point, that point's reference, tolerance, the point)
     for p, q in zip(grid, grid[1:] + grid[:1]):
         memo = {}
         r, width, range_ok = sub_status(t, p, memo)
         A.outcome(lambda: e.at(pt(p)))
         A.outcome(lambda: P.at(pt(q)))
-        o = A.outcome(lambda: LocatedDifferential(e, pt(p)).component(v))
+        ld = A.construct(lambda: LocatedDifferential(e, pt(p)))
+        o = A.outcome(lambda: ld[1].component(v)) if ld[0] == "ok" else ld
         st.inc("transitions", 3)
+        if kept is not None:
+            # a gradient object obtained earlier must still report what it reported then
+            o_old = A.outcome(lambda: kept[0].component(v))
+            st.inc("transitions")
+            if o_old[0] != "val" or o_old[1] != kept[1]:
+                st.violation(case(t, kept[2], "persistent object", "LocatedDifferential kept while the expression is used further",
+                                  repr(kept[1]), o_old,
+                                  f"a LocatedDifferential built at {kept[2]} reported {kept[1]!r}; after later queries on the same "
+                                  f"expression it reports {o_old}", {"variable": v}))
+            kept = None
+        if ld[0] == "ok" and o[0] == "val":
+            kept = (ld[1], o[1], dict(p))
         if r.status != "ok" or not range_ok:
             continue
         ref = reference_partial(t, p, v, memo, Stats())
@@ -640,7 +654,7 @@ def structural_discrepancies(t, v, share):
     return bad
 
 
-def agreement_discrepancies(t, v, share, env, status, tol, routes=None):
+def agreement_discrepancies(t, v, share, env, status, tol, routes=None, df_early=None):
     """Numeric clause of C06 at one point: every route gives the same number or all raise DomainError."""
     routes = routes or Routes(t, v, share)
     outs = {}
@@ -676,6 +690,15 @@ def agreement_discrepancies(t, v, share, env, status, tol, routes=None):
                 bad.append("Differential(e).at(p) != LocatedDifferential(e, p)")
         elif a[0] != b[0]:
             bad.append(f"Differential(e).at(p) -> {a[0]} but LocatedDifferential(e, p) -> {b[0]}")
+        if df_early is None:
+            df_early = A.construct(lambda: Differential(A.build(t, share), compute_early=True))
+        if df_early[0] == "ok" and b[0] == "ok":
+            c = A.construct(lambda: df_early[1].at(pt(env)))
+            if c[0] == "ok":
+                if not (c[1] == b[1]) or not (b[1] == c[1]) or hash(c[1]) != hash(b[1]) or repr(c[1]) != repr(b[1]):
+                    bad.append("Differential(e, compute_early=True).at(p) != LocatedDifferential(e, p) (==, hash or printed form)")
+            elif c[0] != "dom":
+                bad.append(f"Differential(e, compute_early=True).at(p) -> {c[0]} at a point of the domain")
     return bad, outs
 
 
@@ -695,6 +718,7 @@ def c06_term(fam, t, st: Stats):
                 attribute_f3(st, lambda _t=t, _v=v, _s=share: bool(structural_discrepancies(_t, _v, _s)), vc,
                              f"{M.show(t)} d/d{v}: {sbad[0]}")
             routes = Routes(t, v, share)
+            df_early = A.construct(lambda: Differential(A.build(t, share), compute_early=True))
             for env in grid:
                 memo = {}
                 r, width, range_ok = sub_status(t, env, memo)
@@ -710,8 +734,8 @@ def c06_term(fam, t, st: Stats):
                             tol = ref[2]
                     else:
                         tol = mpf(0)
-                bad, outs = agreement_discrepancies(t, v, share, env, r.status, tol, routes)
-                st.inc("transitions", len(outs))
+                bad, outs = agreement_discrepancies(t, v, share, env, r.status, tol, routes, df_early)
+                st.inc("transitions", len(outs) + 3)
                 for o in outs.values():
                     st.outcome(o[0])
                 if r.status == "undef" or tol is not None:
